@@ -15,6 +15,10 @@ func ForeachLeaf(val rel.Value, path string, leafAction func(val rel.Value, path
 	switch v := val.(type) {
 	case rel.Array:
 		for i, item := range v.Values() {
+			if item == nil {
+				// a hole of a sparse array is not a leaf
+				continue
+			}
 			ForeachLeaf(item, fmt.Sprintf("%s(%d)", path, i), leafAction)
 		}
 	case rel.Dict:
